@@ -745,7 +745,10 @@ where
         .map(factory)
         .collect::<FuturesUnordered<_>>();
 
-    while let Some(res) = requests.next().await {
+    // Replicas which have not acknowledged once the timeout elapses count as failed,
+    // otherwise a single unresponsive replica blocks the caller indefinitely.
+    let deadline = tokio::time::Instant::now() + TIMEOUT;
+    while let Ok(Some(res)) = tokio::time::timeout_at(deadline, requests.next()).await {
         match res {
             Ok(()) => {
                 num_success += 1;
